@@ -28,6 +28,12 @@ func main() {
 		os.Exit(2)
 	}
 	id := os.Args[1]
+	if id == "C09-child" && len(os.Args) >= 4 {
+		os.Exit(c09Child(os.Args[3]))
+	}
+	if id == "C17-child" && len(os.Args) >= 4 {
+		os.Exit(c17Child(os.Args[3]))
+	}
 	def, ok := checks[id]
 	if !ok {
 		fmt.Fprintf(os.Stderr, "unknown property %s\n", id)
